@@ -206,6 +206,14 @@ macro_rules! blend_done_contract {
             let pool = JxlThreadPool::none();
             let r = img.blend(Some(Region::with_size(8, 8)), &pool);
             assert!(not_rendering(&h), "[C08] blend leaves the handle in a final (non-Rendering) state on Ok and on Err (a failed composite must not wedge the frame)");
+            if r.is_err() {
+                // "any later call that succeeds yields exactly the samples of a decode that never failed": a failed blend must be
+                // remembered as a failure, never published as a finished (Done / Blended) image that later calls would return
+                assert!(matches!(&*h.render.lock().unwrap(), FrameRender::ErrTaken | FrameRender::Err(_) | FrameRender::None),
+                    "[C08] a failed blend is not published as a finished image");
+            } else {
+                assert!(matches!(&*h.render.lock().unwrap(), FrameRender::Blended(_)), "[C08] a successful blend publishes the blended image");
+            }
             kani::cover!($mode == 3 || r.is_ok());
             kani::cover!($mode == 1 || r.is_err());
             std::mem::forget(r);
